@@ -16,7 +16,15 @@ def build(world):
 
 
 def replay(world, ob):
-    return hn.replay(PROP, world, ob)
+    r = hn.replay(PROP, world, ob)
+    if r and r.get("confirmed"):
+        return r
+    from pyvc import native
+    v = native.unit_version(ob["unit"].split("][")[0] + "]") if "[" in ob["unit"] else None
+    f, n = fault_scenarios(versions=[v] if v in ("2.0", "2.1", "2.2") else ("2.0", "2.1", "2.2"))
+    if f:
+        return dict(f, confirmed=True, native_runs=n, note="the solver's model did not replay as is; this fault scenario of the bounded scope fails natively")
+    return r
 
 
 def fault_scenarios(versions=("2.0", "2.1", "2.2"), tier="quick"):
